@@ -269,6 +269,7 @@ func checkDateString(env *Env, s string, year, m, d int, sameSep bool, o *Outcom
 	}
 	if groups, ok := gsSubmatch("datePattern", s); ok {
 		gsCompare(env, o, "date", impl, in, append([]string{"gs.date", hx(s)}, groups...)...)
+		gsCheckSubmatch(env, o, "datePattern", "rx_klog_datePattern", 3, s, in)
 	} else {
 		addF(o, Finding{Kind: "K", What: "K.gosrc.date: no package-level regexp variable datePattern in the sources", Input: in})
 	}
